@@ -283,6 +283,26 @@ def sites_check(ctx):
     ctx.extra["c06_app_sites"] = dict(sites=len(asites), call_entries=len(acalls), unrouted=abad[:20], error=aerr)
     ctx.obligation("sites:every-string-handed-to-a-storage-entry-point-is-routed-through-sanitize_path", not abad and not aerr,
                    aerr or "\n".join(abad[:20]))
+    # the static web pages: httputils.serve_resource / _serve_traversable and radicale/web (account of Gen_c06_web_sites_ok)
+    wbad, werr = [], None
+    try:
+        wcalls, wsites = t_c06sites.web_table(core.REPO)
+    except Exception as e:
+        wcalls, wsites, werr = [], [], "%s: %s" % (type(e).__name__, e)
+    for f, fn, sink, line, t in wsites:
+        ctx.count("websites:%s" % sink)
+        ctx.case(("website", f, fn, sink, line), nontrivial=True)
+        w = _has_unknown(t)
+        if w:
+            wbad.append("%s:%d %s %s(): %s" % (f, line, fn, sink, w))
+    for f, x, t in wcalls:
+        w = _has_unknown(t)
+        if w:
+            wbad.append("web: argument %s of a call of %s: %s" % (x, f, w))
+    ctx.extra["c06_web_sites"] = dict(sites=len(wsites), call_entries=len(wcalls), unconfined=wbad[:20], error=werr)
+    ctx.obligation("sites:every-component-joined-onto-the-web-folder-is-literal-or-checked-unchanged", not wbad and not werr,
+                   werr or "\n".join(wbad[:20]))
+    web_probe(ctx)
     # failing-input search at the storage API (public methods called directly with hostile strings)
     base = tempfile.mkdtemp(prefix="rv-c06p-")
     try:
@@ -309,6 +329,36 @@ def sites_check(ctx):
             ctx.violation(what, dict(function="storage-probe", seed=seed, n=n, event=ev,
                                      note="replay: VERIF_REPO=<tree> PYTHONPATH=/verif python vlib/drivers/c06_storage_probe.py spec.json out.json "
                                           "with spec {base: <empty dir>, seed, n}"))
+    finally:
+        shutil.rmtree(base, ignore_errors=True)
+
+
+def web_probe(ctx):
+    """GET/HEAD below /.web with encoded, doubly encoded and mixed segments against the real Application under an audit hook."""
+    import subprocess
+    base = tempfile.mkdtemp(prefix="rv-c06w-")
+    try:
+        spec, outp = os.path.join(base, "spec.json"), os.path.join(base, "out.json")
+        os.makedirs(os.path.join(base, "b"))
+        seed, n = ctx.rng.randrange(1 << 30), ctx.n(400, 4000)
+        json.dump(dict(base=os.path.join(base, "b"), seed=seed, n=n), open(spec, "w"))
+        env = dict(os.environ, VERIF_REPO=core.REPO, PYTHONPATH=core.VERIF, PYTHONHASHSEED="0")
+        pr = subprocess.run([core.PY, os.path.join(core.VERIF, "vlib/drivers/c06_web_probe.py"), spec, outp],
+                            stdout=subprocess.PIPE, stderr=subprocess.STDOUT, env=env, timeout=900)
+        if pr.returncode != 0 or not os.path.exists(outp):
+            ctx.obligation("sites:web-probe-ran", False, pr.stdout.decode("utf-8", "replace")[-1500:])
+            return
+        res = json.load(open(outp))
+        ctx.count("webprobe:requests", res["requests"])
+        for k, v in res["statuses"].items():
+            ctx.count("webprobe:status:%s" % k, v)
+        ctx.extra["c06_web_probe"] = dict(requests=res["requests"], statuses=res["statuses"], events=len(res["events"]))
+        for ev in res["events"][:1]:
+            ctx.violation("C06 web probe: %s %s (PATH_INFO as handed over by the WSGI server) answered %s: %s, outside the packaged web folder"
+                          % (ev["method"], ev["path"], ev["status"], ev["what"]),
+                          dict(function="web-probe", seed=seed, n=n, request=dict(method=ev["method"], path=ev["path"]), event=ev,
+                               note="replay: VERIF_REPO=<tree> PYTHONPATH=/verif python vlib/drivers/c06_web_probe.py spec.json out.json "
+                                    "with spec {base: <empty dir>, seed, n}; or send the request to the Application with web type internal"))
     finally:
         shutil.rmtree(base, ignore_errors=True)
 
